@@ -166,8 +166,9 @@ def check_report(rep, seed, testnet, mn, pw, acct, a, b, filtered=False):
         if len(rows) != len(want_idx):
             return "BIP%d has %d rows for interval [%d,%d)" % (purpose, len(rows), a, b)
         for row, i in zip(rows, want_idx):
-            if row[0] != "%s/0/%d" % (path, i):
-                return "row path %s, expected %s/0/%d" % (row[0], path, i)
+            shown = "%d'" % (i - H) if i >= H else "%d" % i      # an index >= 2^31 is printed as a hardened component
+            if row[0] != "%s/0/%s" % (path, shown):
+                return "row path %s, expected %s/0/%s" % (row[0], path, shown)
             ch = spec_ckd_priv(ext[0], ext[1], ext[2], i)
             x, y = point(ch[0])
             sec = sec_c(x, y)
